@@ -79,6 +79,10 @@ def gen_value(rng, mfs, json_ok):
     if r < 0.70:
         if not json_ok and rng.random() < 0.3:
             return {'ba': bytes(rng.getrandbits(8) for _ in range(rng.choice((0, 3, mfs + 1 if mfs < 100 else 40)))).hex()}, 'bytearray'
+        if not json_ok and rng.random() < 0.4:
+            # instances of subclasses of the natively stored types, short and at the file threshold
+            return rng.choice(({'sub': ['str', 'r' * rng.choice((3, mfs + 1 if mfs < 100 else 40))]}, {'sub': ['bytes', {'b': 'ab' * rng.choice((2, mfs + 1 if mfs < 100 else 40))}]},
+                               {'sub': ['int', 7]}, {'sub': ['float', {'f': '2.5'}]})), 'subclass'
         return rng.choice((None, True, False)), 'const'
     if r < 0.85:
         inner = [1, 'x', None, {'f': '-0.0'}, {'f': 'nan'}]
